@@ -92,6 +92,14 @@ func genMeta(c *Ctx) {
 					back, err := get(m, kc.key)
 					same := err == nil && bytes.Equal(back, pt)
 					_, oerr := get(m, other)
+					// "a different key": also the thirty-two keys that differ from the right one in a single bit of a single byte
+					for i := 0; i < len(kc.key) && len(kc.key) == 32; i++ {
+						near := append([]byte{}, kc.key...)
+						near[i] ^= 1 << uint(i%8)
+						if _, e := get(m, near); e == nil {
+							oerr = nil
+						}
+					}
 					// every single-bit modification of the stored ciphertext
 					allErr := true
 					step := 1
